@@ -66,6 +66,17 @@ class Prop(common.PropertyCheck):
             yield {'k': 'file', 'far': True, 'spec': {'version': ver, 'delim': '/', 'datatype': 'F' if i == 2 else 'I', 'byteord': '1,2,3,4', 'widths': ws,
                                                       'ranges': [1 << w for w in ws] if i != 2 else [1024, 1024], 'events': ev, 'placement': 'header', 'text_offsets_too': too,
                                                       'end_conv': 'last', 'pad_text': 0, 'pad_data': pad, 'pad_after': 0, 'order': 'TDA'}}
+        # a parameter whose declared range is 1 (no significant bit: every stored word reads as 0), next to ordinary parameters; single-parameter files of 24..56 bits
+        for i in range(self.budget(16, 120)):
+            spec = fcsgen.gen_spec(rng, datatype='I', family=fcsgen.FAMILIES[i % 7])
+            if spec.get('malformed') or not spec['events']:
+                continue
+            spec['ranges'] = list(spec['ranges']); spec['ranges'][i % len(spec['ranges'])] = 1
+            yield {'k': 'file', 'spec': spec}
+        for i, w in enumerate([24, 40, 48, 56, 24, 40]):
+            ev = [[v] for v in fcsgen.gen_values(rng, w, 3)]
+            yield {'k': 'file', 'spec': {'version': ['FCS3.0', 'FCS2.0', 'FCS3.1'][i % 3], 'delim': '/', 'datatype': 'I', 'byteord': ['1,2,3,4', '4,3,2,1'][i % 2], 'widths': [w], 'ranges': [1 << w],
+                                         'events': ev, 'placement': 'header', 'text_offsets_too': True, 'end_conv': ['last', 'past'][i % 2], 'pad_text': 0, 'pad_data': 0, 'pad_after': i % 2, 'order': 'TDA'}}
         # the DATA segment stored before the TEXT segment (HEADER, DATA, TEXT[, ANALYSIS]); TEXT beginning right after the last byte of DATA
         for i in range(self.budget(28, 280)):
             spec = fcsgen.gen_spec(rng, family=fcsgen.FAMILIES[i % 7], datatype=['I', 'F', 'D', 'I'][i % 4])
